@@ -156,6 +156,9 @@ impl HistoryProp for P09 {
         if let Some((step, e)) = sim.api_errors.first() {
             return Some(("polling-failed".into(), format!("at step {}: {}", step, e)));
         }
+        if let Some(d) = sim.idle_with_releasable_connection() {
+            return Some(("dead-connection-not-released".into(), d));
+        }
         match (act, applied) {
             (Act::RoundTrip(_), Applied::Trip(r)) => {
                 self.trips += 1;
@@ -277,6 +280,88 @@ fn choose(rng: &mut Rng, sim: &Sim, en: &[Act]) -> Option<Act> {
         x -= wi;
     }
     None
+}
+
+/// A talkative client: a second thread keeps one client's socket filled with acceptable bytes (a request
+/// whose header section never ends) while the witness wants a round trip. The work one polling call does for
+/// one client must stay bounded: the verdict is taken on logical steps (the hook's step budget of 40000 state
+/// machine iterations per call; one read of one buffer needs about a hundred), never on wall-clock time.
+/// If the sender cannot keep up, the case just proves less.
+fn talkative_client_family(ctx: &mut Ctx, n: u64) {
+    use std::io::Write;
+    use std::sync::atomic::{AtomicBool, AtomicU64, Ordering};
+    use std::sync::Arc;
+    for i in 0..n {
+        ctx.begin();
+        ctx.rep.evaluations += 1;
+        ctx.rep.count("histories_talkative_client");
+        let mut p = P09::new(2, 4);
+        let mut sim = match p.new_sim(ctx) {
+            Some(s) => s,
+            None => return,
+        };
+        sim.connect(1);
+        sim.poll();
+        let gi = match sim.gen_of(1) {
+            Some(g) => g,
+            None => continue,
+        };
+        let mut talker = match sim.gens[gi].stream.as_ref().and_then(|s| s.try_clone().ok()) {
+            Some(t) => t,
+            None => continue,
+        };
+        let stop = Arc::new(AtomicBool::new(false));
+        let sent = Arc::new(AtomicU64::new(0));
+        let (stop2, sent2) = (stop.clone(), sent.clone());
+        let lines_per_chunk = 4096;
+        let handle = std::thread::spawn(move || {
+            let mut chunk = Vec::with_capacity(lines_per_chunk * 11);
+            for _ in 0..lines_per_chunk {
+                chunk.extend_from_slice(b"Server: x\r\n");
+            }
+            let _ = talker.write_all(b"GET /talk HTTP/1.1\r\n");
+            let started = std::time::Instant::now();
+            let mut off = 0usize;
+            // bounded: at most 1.5 s or 256 MiB
+            while !stop2.load(Ordering::Relaxed) && started.elapsed().as_millis() < 1500 && sent2.load(Ordering::Relaxed) < (256 << 20) {
+                match talker.write(&chunk[off..]) {
+                    Ok(k) => {
+                        sent2.fetch_add(k as u64, Ordering::Relaxed);
+                        // keep line alignment across partial writes
+                        off = (off + k) % chunk.len();
+                    }
+                    Err(ref e) if e.kind() == std::io::ErrorKind::WouldBlock => std::thread::yield_now(),
+                    Err(_) => break,
+                }
+            }
+        });
+        // the application meanwhile: poll on readiness, and a witness round trip
+        let mut verdict: Option<(String, String)> = None;
+        let mut trips = 0;
+        for _ in 0..(3 + i % 3) {
+            match sim.round_trip(0, 400) {
+                Ok(_) => trips += 1,
+                Err(e) => {
+                    verdict = Some(("witness-starved".into(), format!("while another client keeps sending acceptable bytes: {}", e)));
+                    break;
+                }
+            }
+            if !sim.api_errors.is_empty() {
+                break;
+            }
+        }
+        stop.store(true, Ordering::Relaxed);
+        let _ = handle.join();
+        ctx.rep.add("talkative_client_bytes_sent", sent.load(Ordering::Relaxed));
+        ctx.rep.add("witness_round_trips_next_to_a_talkative_client", trips);
+        if let Some((step, e)) = sim.api_errors.first() {
+            verdict = Some(("polling-failed".into(), format!("at step {} while another client keeps sending acceptable bytes: {}", step, e)));
+        }
+        if let Some((k, d)) = verdict {
+            ctx.rep.violation(&format!("C09:{}", k), d, J::obj(vec![("engine", J::s("server-simulator")), ("family", J::s("talkative-client")), ("note", J::s("a second thread sends `Server: x` header lines without end on client 1 while client 0 does round trips"))]));
+            return;
+        }
+    }
 }
 
 /// Capacity variant: the server is full, an 11th client connects and disappears before the
@@ -497,6 +582,10 @@ pub fn run(ctx: &mut Ctx) {
     p.app_extras = true;
     hist::random_histories(ctx, &mut p, n / 2 + 1, 15, 90, "C09", &mut choose);
     vanishing_client_family(ctx, ctx.budget(1_600, 60_000) / ctx.nshards);
+    if ctx.shard % 4 == 0 {
+        // (on a quarter of the shards: the sender thread needs a core of its own to be of any use)
+        talkative_client_family(ctx, ctx.budget(6, 60));
+    }
     capacity_churn_family(ctx, ctx.budget(3_200, 120_000) / ctx.nshards);
     if ctx.rep.samples.is_empty() {
         ctx.rep.sample(J::s("no sample"));
@@ -504,6 +593,11 @@ pub fn run(ctx: &mut Ctx) {
 }
 
 pub fn replay(ctx: &mut Ctx, case: &J) {
+    if case.gs("family") == "talkative-client" {
+        ctx.only_case = None;
+        talkative_client_family(ctx, 6);
+        return;
+    }
     let mut p = P09::new(11, 8);
     p.all_pieces = true;
     p.app_extras = true;
